@@ -15,7 +15,21 @@ States are (ok: bool, reason: str).  ok=True means "the good state holds on all 
 definitions"."""
 from . import mir
 
-GOOD = (True, "")
+GOOD = (True, "", frozenset())
+
+
+def cond_of(r):
+    return r[2] if len(r) > 2 else frozenset()
+
+
+def merge(results):
+    """all must be ok; conditions (argument indices that must themselves be good) are united"""
+    c = frozenset()
+    for r in results:
+        if not r[0]:
+            return r
+        c |= cond_of(r)
+    return (True, "", c)
 
 
 class Domain:
@@ -29,7 +43,7 @@ class Domain:
         """(ok, reason) or None (= fall back to the callee summary)"""
         return None
 
-    def agg_rule(self, ts, ctx, rv, proj):
+    def agg_rule(self, ts, ctx, rv, proj, bb=None):
         return None
 
     def const_rule(self, c, proj):
@@ -37,6 +51,10 @@ class Domain:
 
     def place_rule(self, ts, ctx, place, proj):
         return None
+
+    def cond_arg(self, ty, proj):
+        """may the state of an argument of this type be left as a condition of the fn summary?"""
+        return False
 
 
 class Ctx:
@@ -180,43 +198,42 @@ class TS:
         if 1 <= l <= body["argc"] and not [d for d in defs if d[1] == 't' or not d[2]["p"].get("p")]:
             if ctx.fn["kind"] == "Closure" and l == 1:
                 return (False, "closure environment")
+            if self.dom.cond_arg(ty, proj):
+                return (True, "", frozenset([l]))
             return (False, "argument %d of type %s" % (l, ty))
         if not defs:
             return (False, "local _%d has no definition" % l)
         results = []
         for (bb, idx, node) in defs:
             if idx == 't':
-                results.append(self.call(ctx, node, proj, depth, seen))
+                results.append(self.call(ctx, node, proj, depth, seen, bb))
             elif node["k"] == "as":
                 lhs = [n for n in self._proj_names(node["p"]) if n != "*"]
                 if lhs:
                     # partial definition  l.f = rv
                     if tuple(proj[:len(lhs)]) == tuple(lhs):
-                        results.append(self.rvalue(ctx, node["rv"], tuple(proj[len(lhs):]), depth, seen))
+                        results.append(self.rvalue(ctx, node["rv"], tuple(proj[len(lhs):]), depth, seen, bb))
                     elif tuple(lhs[:len(proj)]) == tuple(proj):
                         # writes a sub-component of what we look at: be conservative
                         results.append(self.rvalue(ctx, node["rv"], (), depth, seen) if False else (False, "component %s of _%d written separately" % ("".join(lhs), l)))
                     else:
                         continue
                 else:
-                    results.append(self.rvalue(ctx, node["rv"], proj, depth, seen))
+                    results.append(self.rvalue(ctx, node["rv"], proj, depth, seen, bb))
             else:
                 results.append((False, "set-discriminant"))
-        for r in results:
-            if not r[0]:
-                return r
         if not results:
             return (False, "no definition of _%d matches %s" % (l, "".join(proj)))
-        return GOOD
+        return merge(results)
 
-    def rvalue(self, ctx, rv, proj, depth, seen):
+    def rvalue(self, ctx, rv, proj, depth, seen, bb=None):
         k = rv["k"]
         if k == "use":
             return self.operand(ctx, rv["a"], proj, depth + 1, seen)
         if k in ("ref", "rawptr"):
             return self.place(ctx, rv["p"], proj, depth + 1, seen)
         if k == "agg":
-            r = self.dom.agg_rule(self, ctx, rv, proj)
+            r = self.dom.agg_rule(self, ctx, rv, proj, bb)
             if r is not None:
                 return r
             ak = rv["ak"]
@@ -245,11 +262,12 @@ class TS:
             return (False, "cast " + rv["ck"])
         return (False, "rvalue " + k)
 
-    def call(self, ctx, term, proj, depth, seen):
+    def call(self, ctx, term, proj, depth, seen, bb=None):
         f = mir.callee(term)
         if f is None:
             return (False, "indirect call")
         path = f.get("rp") or f["p"]
+        ctx.cur_bb = bb
         r = self.dom.call_rule(self, ctx, path, f, term["a"], proj, term)
         if r is not None:
             return r
@@ -258,5 +276,15 @@ class TS:
         if path in IDENT or path.endswith("as core::clone::Clone>::clone") and False:
             return self.operand(ctx, term["a"][0], proj, depth + 1, seen)
         if "r" in f and path in self.fn_by_path and f.get("rk", "item") == "item":
-            return self.summary(path, tuple(proj))
+            r = self.summary(path, tuple(proj))
+            if r[0] and cond_of(r):
+                # conditional summary: the listed arguments must be good at this call site
+                rs = []
+                for ai in sorted(cond_of(r)):
+                    if ai - 1 < len(term["a"]):
+                        rs.append(self.operand(ctx, term["a"][ai - 1], (), depth + 1, seen))
+                    else:
+                        rs.append((False, "conditional summary of %s on a missing argument" % path))
+                return merge(rs)
+            return r
         return (False, "call of %s" % path)
